@@ -54,6 +54,7 @@ def handle (j : Json) : Json :=
   let allParams := op.pathParams ++ opList op
   let allFacts := ((getArr j "pathParams") ++ (getArr j "opParams")).map parseFacts
   let uses := (securityList op).flatten
+  let build := getD j "build" Json.null
   let branches :=
     (if op.opSecurity.isSome then ["sec.op"] else []) ++
     (if (securityList op).isEmpty then ["sec.empty"] else []) ++
@@ -74,7 +75,15 @@ def handle (j : Json) : Json :=
     (if hasBody && !bf.sent then (if bf.required then ["body.absent-required"] else ["body.absent-optional"]) else []) ++
     (if hasBody && bf.sent && !bf.declaredType then ["body.badct"] else []) ++
     (if o.multiError then ["multi"] else []) ++
-    (if (failing o op env).length > 1 then ["fail.many"] else [])
+    (if (failing o op env).length > 1 then ["fail.many"] else []) ++
+    (if getStr build "req" == "httptest" then ["build.req.httptest"] else []) ++
+    (if getStr build "route" == "gorilla" then ["build.route.gorilla"] else []) ++
+    (if getStr build "route" == "legacy" then ["build.route.legacy"] else []) ++
+    (if getStr build "doc" == "loaded" then ["build.doc.loaded"] else []) ++
+    (if getBool j "authReadsBody" && !log.isEmpty then ["auth.readsbody"] else []) ++
+    (if getBool j "optionsNil" then ["opt.nil"] else []) ++
+    (if getStr j "undeclaredHow" != "" then ["sec.undeclared." ++ getStr j "undeclaredHow"] else []) ++
+    (if ((getArr j "pathParams") ++ (getArr j "opParams")).any (fun p => getBool p "ref") then ["param.ref"] else [])
   jobj [
     ("model", jobj [("ok", Json.bool res.isOk), ("shape", Json.str (shapeStr res)),
                     ("parts", jstrs (res.parts.map partStr)),
